@@ -135,6 +135,9 @@ def handleArrX (op : String) (args res : List Sexp) : Verdict :=
     match v, res with
     | _, [.atom "err"] => v
     | .ok, _ | .skip _, _ =>
+      -- corpus lines are shared by the binaries of all variants and keep the name they were minimised on: only the
+      -- smash-intervals binary (built with -DXDUMP) dumps the `(x ..)` items, so their presence identifies it
+      if !(pairs.any (fun pr => pr.2.isSome)) then v else
       match e0.nat?, e1.nat? with
       | some e0, some e1 =>
         match compareHist e0 e1 ops pairs with
